@@ -3039,3 +3039,109 @@ Proof.
     { apply wfn_szi_pwf; [|exact Hz1]. destruct P1 as [[-> _]|[_ Hw1]]; [destruct Vk|exact Hw1]. }
     apply (IH vr s1 Hs1); auto.
 Qed.
+
+Lemma last_opt_some {A} (l : list A) : l <> [] -> exists x, last_opt l = Some x.
+Proof.
+  induction l as [|a l IH]; [congruence|]. intros _. destruct l as [|b l]; [eexists; reflexivity|].
+  destruct (IH ltac:(discriminate)) as [x Ex]. exists x. exact Ex.
+Qed.
+
+Section GeneralTotal.
+  Variable H : list N -> list N.
+  Hypothesis H_len : forall x, length (H x) = 32%nat.
+  Variable db : pdb.
+  Variable P : list N -> Prop.
+  Hypothesis faithful : forall e b, P e -> db_get db (H e) = Some b -> b = e.
+  Variable t : node.
+  Variable r : list N.
+  Hypothesis Hcan : can t.
+  Hypothesis Hok : content_ok t.
+  Hypothesis Hroot : hash_root H t = Some r.
+  Hypothesis HP : forall e, genuine H t e -> P e.
+
+  (* range_total, two-edge branch: with genuine proof nodes, non-empty keys of one length
+     (trie, run and start key) no input makes VerifyRangeProof panic: not the "invalid node"
+     / "it shouldn't happen" panics of unsetInternal / unset, not a type assertion, not the
+     hasher, not hasRightElement *)
+  Theorem general_total first keys values Lb :
+    keys_fixed t Lb -> (0 < Lb)%nat -> N.of_nat Lb < 2 ^ 30 ->
+    length first = Lb -> forallb byteb first = true ->
+    Forall (fun k => length k = Lb /\ forallb byteb k = true) keys -> Forall small values ->
+    no_panic (verify_range_proof H r first keys values (Some db)).
+  Proof.
+    intros Hfix HL0 HLs Hlf Hbf HK HV.
+    pose proof (can_pwf t Hcan Hok) as Hw.
+    assert (HKl : Forall (fun k => length k = Lb) keys) by (eapply Forall_impl; [|exact HK]; intros k [? _]; assumption).
+    assert (Hul : forall k, length k = Lb -> ulen t (length (keybytes_to_hex k))).
+    { intros k Hk. rewrite hex_length, Hk. apply keys_fixed_ulen. exact Hfix. }
+    unfold verify_range_proof.
+    destruct (Nat.eqb (length keys) (length values)) eqn:El; cbn [negb]; [|split; discriminate].
+    apply Nat.eqb_eq in El. destruct (check_run keys values) as [e|] eqn:C.
+    { destruct (check_run_no_panic keys values El) as [C1 C2]. rewrite C in C1, C2. split; congruence. }
+    apply (check_run_spec Lb keys values HKl El) in C. destruct C as [Hsorted Hne].
+    destruct keys as [|k0 kr].
+    { destruct values; [|discriminate]. apply (empty_total H H_len db P faithful t r Hcan Hok Hroot HP first Hbf (Hul _ Hlf)). }
+    destruct values as [|v0 vr]; [discriminate|].
+    destruct (slice_lt k0 first); [split; discriminate|].
+    destruct (last_opt_some (k0 :: kr) ltac:(discriminate)) as [last Hlast]. rewrite Hlast.
+    assert (Hlin : In last (k0 :: kr)) by (apply last_opt_in; exact Hlast).
+    assert (Hll : length last = Lb /\ forallb byteb last = true) by (rewrite Forall_forall in HK; apply HK; exact Hlin).
+    destruct Hll as [Hll Hbl].
+    destruct (Nat.eqb (length (k0 :: kr)) 1 && bytes_eqb first last) eqn:Hbr.
+    { (* the single-element branch *)
+      apply andb_true_iff in Hbr. destruct Hbr as [B1 B2]. apply bytes_eqb_eq in B2. subst last.
+      destruct kr; [|discriminate]. simpl in Hlast. inversion Hlast; subst k0. destruct vr; [|discriminate].
+      pose proof (single_total H H_len db P faithful t r Hcan Hok Hroot HP first Hbf (Hul _ Hlf) v0) as T.
+      unfold verify_range_proof in T. cbn [length Nat.eqb negb check_run] in T.
+      destruct v0 as [|b0 v0]; [inversion Hne; congruence|].
+      rewrite slice_lt_irrefl in T. cbn [last_opt] in T. rewrite bytes_eqb_refl in T. cbn [andb negb] in T.
+      rewrite ?bytes_eqb_refl. cbn [andb negb]. exact T. }
+    destruct (slice_lt first last) eqn:Hlt; cbn [negb]; [|split; discriminate].
+    destruct (Nat.eqb (length first) (length last)); cbn [negb]; [|split; discriminate].
+    (* the first edge *)
+    destruct (ptp_root H H_len db P faithful t r Hcan Hok Hroot HP first true Hbf) as [[_ E1]|[_ Q1]];
+      [rewrite E1; split; discriminate|].
+    destruct (proof_to_path db r None first true) as [[root1 val1]|e1]; cbn [ptp_post] in Q1.
+    2: { destruct Q1 as [[-> _]|(_ & A & _)]; [split; discriminate|discriminate]. }
+    destruct Q1 as (Pv1 & In1 & _ & Rs1 & _).
+    unfold proof_to_path at 1. cbv zeta.
+    pose proof (ptp_spec H H_len db P faithful _ root1 t (keybytes_to_hex last) true Pv1 Hw In1
+                  (keybytes_to_hex_valid _ Hbl) (ptp_fuel_ok _ db) HP) as Q2.
+    destruct (ptp (ptp_fuel (keybytes_to_hex last) db) db true root1 (keybytes_to_hex last)) as [[root2 val2]|e2] eqn:E2;
+      cbn [ptp_post] in Q2.
+    2: { destruct Q2 as [[-> _]|(_ & A & _)]; [split; discriminate|discriminate]. }
+    destruct Q2 as (Pv2 & In2 & _ & Rs2 & _).
+    pose proof (ptp_res_mono _ _ _ _ _ _ _ E2 _ Rs1) as Rs1'.
+    (* unsetInternal *)
+    destruct (unset_internal_progress H H_len t root2 (keybytes_to_hex first) (keybytes_to_hex last) Hcan Pv2 Rs1' Rs2)
+      as [(act & E3 & _)|E3]; try rewrite E3; try (split; discriminate).
+    { rewrite hex_length, Hlf. apply keys_fixed_ulen. exact Hfix. }
+    { rewrite !hex_length. lia. }
+    { apply keybytes_to_hex_valid; exact Hbf. }
+    { apply keybytes_to_hex_valid; exact Hbl. }
+    { rewrite slice_lt_hex; auto. lia. }
+    destruct (unset_internal_sim H _ _ _ _ _ Pv2 E3) as (act' & E3' & Hact).
+    pose proof (pvact_node H _ _ Hact) as Pv3.
+    change (match act with URemove => NEmpty | UKeep r0 => r0 end) with (act_node act).
+    assert (Hs1 : act_node act' = NEmpty \/ pwf (act_node act')).
+    { destruct (unset_internal_pwf _ _ _ _ Hw E3') as [->|(s' & -> & Hs')]; [left; reflexivity|right; exact Hs']. }
+    assert (HKs : Forall (fun k => forallb byteb k = true /\ small (keybytes_to_hex k)) (k0 :: kr)).
+    { eapply Forall_impl; [|exact HK]. intros k [Hk1 Hk2]. split; [exact Hk2|].
+      unfold small, lenN. rewrite hex_length, Hk1. lia. }
+    assert (HVs : Forall val_ok (v0 :: vr)).
+    { rewrite Forall_forall in HV, Hne |- *. intros v Hv. split; [apply Hne; exact Hv|apply HV; exact Hv]. }
+    (* re-insertion: accepted by the full trie, hence accepted or MissingNodeError here *)
+    destruct (reinsert_full_ex (k0 :: kr) (v0 :: vr) _ Hs1 El HKs HVs) as (s3 & E4' & Hs3).
+    destruct (reinsert_sim_conv H H_len (k0 :: kr) (v0 :: vr) _ _ _ Pv3 Hne E4') as [(root3 & E4 & Pv4)|E4]; rewrite E4; [|split; discriminate].
+    (* the hasher *)
+    rewrite (hash_root_pv' H H_len _ _ Pv4 Hs3).
+    assert (Hh : exists h, hash_root H s3 = Some h).
+    { destruct Hs3 as [->|Hw3]; [eexists; reflexivity|].
+      destruct (pwf_enc_total H H_len s3 Hw3) as [e Ee]. rewrite (pwf_hash_root H s3 e Hw3 Ee). eauto. }
+    destruct Hh as [h ->]. destruct (negb (bytes_eqb h r)); [split; discriminate|].
+    (* hasRightElement on the freshly inserted last key *)
+    pose proof (reinsert_res _ _ _ _ _ Hne E4 Hlast) as Rs3.
+    destruct (has_right_total H s3 root3 (keybytes_to_hex last) Pv4) as [b Eb]; [|exact Rs3|rewrite Eb; split; discriminate].
+    destruct Hs3 as [->|Hw3]; [left; reflexivity|right; right]. split; [exact Hw3|apply keybytes_to_hex_valid; exact Hbl].
+  Qed.
+End GeneralTotal.
